@@ -161,7 +161,10 @@ TLC_JAR = "/opt/veriftools/tla/tla2tools.jar:/opt/veriftools/tla/CommunityModule
 def tlc(workdir, module, cfg, workers=16, timeout=900, extra=None, heap=None, deque=False):
     """Run TLC in workdir (a scratch copy of the specs). Returns (rc, output, seconds)."""
     meta = os.path.join(workdir, "meta-%s-%d" % (os.path.splitext(cfg)[0], int(time.time() * 1000) % 100000))
-    cmd = ["java", "-XX:+UseParallelGC", "-Xss64m"]
+    jtmp = os.path.join(workdir, "jtmp")
+    os.makedirs(jtmp, exist_ok=True)
+    # (TLC leaves a tlc-* directory per run in java.io.tmpdir: keep it inside the scratch directory, which is removed)
+    cmd = ["java", "-XX:+UseParallelGC", "-Xss64m", "-Djava.io.tmpdir=" + jtmp]
     if heap:
         cmd.append("-Xmx%s" % heap)
     if deque:
